@@ -16,18 +16,23 @@ func init() {
 		// registered claims are overlaid last
 		{ID: "E1.merge.registered-last", Fn: "oidc.mergeAndMarshalClaims", P: []string{"registered", "extraClaims"}, Kind: "call", Pat: "json.NewDecoder($buf).Decode(&$merged)", Max: 1,
 			Why: "the registered JSON is decoded over the copy of the custom claims, so a registered claim that is set always wins",
-			Req: []string{"ok(json.NewEncoder($buf).Encode($registered))", "lt(0, len($extraClaims))", "def($merged, make(__))"}},
-		{ID: "E1.merge.copy-in-loop", Fn: "oidc.mergeAndMarshalClaims", P: []string{"registered", "extraClaims"}, Kind: "store", Pat: "store($merged[$k], $v)", Max: 1,
+			Req: []string{"ok(json.NewEncoder($buf).Encode($registered))", "lt(0, len($extraClaims))",
+				"def($merged, maps.Clone($extraClaims)) || (def($merged, make(__)) && all($extraClaims, eq($merged[KEY], ELEM)))"}},
+		{ID: "E1.merge.copy-in-loop", Fn: "oidc.mergeAndMarshalClaims", P: []string{"registered", "extraClaims"}, Kind: "store", Pat: "store($merged[$k], $v)", Max: 1, Opt: true,
+			Why: "custom claims enter the merged map only as the copy of extraClaims",
 			Req: []string{"inloop($v, $extraClaims)"}},
+		{ID: "E1.merge.no-write-after-overlay", Fn: "oidc.mergeAndMarshalClaims", P: []string{"registered", "extraClaims"}, Kind: "store", Pat: "store($m[$k], _)", Forbid: true,
+			When: []string{"called(json.NewDecoder(_).Decode(&$m))"}, Why: "a claim written after the registered claims were overlaid could replace a registered claim"},
 		{ID: "E1.merge.result", Fn: "oidc.mergeAndMarshalClaims", P: []string{"registered", "extraClaims"}, Kind: "ret ok", Pat: "ret($buf.Bytes(), nil)", Max: 1,
 			Req: []string{"ok(json.NewEncoder($buf).Encode($registered))", "le(len($extraClaims), 0) || ok(json.NewEncoder($buf).Encode($merged))"}},
 		{ID: "E1.jwtreq.registered-last", Fn: "oidc.(*JWTTokenRequest).MarshalJSON", P: []string{"j"}, Kind: "call", Pat: "json.Unmarshal($b, &$j.private)", Max: 1,
 			Why: "the registered JSON is decoded over the private claims (registered wins); merging in the other direction lets stale custom copies replace iss/sub/aud/exp",
 			Req: []string{"def($b, json.Marshal(conv(_, $j)), 0)", "ok(json.Marshal(conv(_, $j)))", "neq(len($j.private), 0)"}},
-		{ID: "E1.unmarshal-multi.all-or-error", Fn: "oidc.unmarshalJSONMulti", P: []string{"data", "destinations"}, Kind: "backedge", Pat: "backedge($destinations)", Max: 1,
-			Req: []string{"inloop($dst, $destinations)", "ok(json.Unmarshal($data, $dst))"}},
+		{ID: "E1.unmarshal-multi.all-or-error", Fn: "oidc.unmarshalJSONMulti", P: []string{"data", "destinations"}, Kind: "ret ok",
+			Why: "success means every destination was decoded",
+			Req: []string{"all($destinations, ok(json.Unmarshal($data, ELEM)))"}},
 		// tolerant decoders: every accepted form assigns from the decoded value
-		{ID: "E1.audience.forms", Fn: "oidc.(*Audience).UnmarshalJSON", P: []string{"a", "text"}, Kind: "store", Pat: "store((*$a)[$i], $s)", Max: 1,
+		{ID: "E1.audience.forms", Fn: "oidc.(*Audience).UnmarshalJSON", P: []string{"a", "text"}, Kind: "store", Pat: "store($dst[$i], $s)", Max: 1,
 			Req: []string{"is($elem, string)", "def($s, $elem.(string), 0)", "inloop($elem, $aud)"}},
 		{ID: "E1.time.forms", Fn: "oidc.(*Time).UnmarshalJSON", P: []string{"ts", "data"}, Kind: "ret ok", Min: 1,
 			Req: []string{"ok(json.Unmarshal($data, &$v))", "is($v, float64) || (is($v, string) && ok(time.Parse(time.RFC3339, _))) || nil($v)"}},
@@ -69,7 +74,6 @@ func init() {
 			RunN1(c, nr)
 			RunAssertPanic(c, []string{"oidc", "crypto", "http"}, c09AssertAllow, nil)
 			RunMarshalRecursion(c, []string{"oidc", "op", "client", "client/rp"})
-			RunMergeOrder(c)
 		},
 	})
 }
